@@ -637,6 +637,20 @@ func decide(o *Obligation, cfg *SolverCfg, known []KnownFinding, prop string, op
 		"solver": r.Res.Solver, "status": r.Res.Status, "solver_output": r.Res.Output, "per_solver": r.Res.All,
 	}
 	r.Confirmed = "no-replay"
+	if r.Res.Status != "sat" {
+		// no model: a hand-written harness for the unit can still demonstrate the failure
+		if _, err := os.Stat(filepath.Join(opts.VerifDir, "replay", sanitize(ShortKey(o.Gen.Key))+".go.txt")); err == nil {
+			outcome, detail, testSrc := Replay(o, &Model{Vals: map[string]*SExpr{}}, opts)
+			r.Confirmed = outcome
+			rec["replay_outcome"] = outcome
+			rec["replay_detail"] = detail
+			if testSrc != "" {
+				tp := strings.TrimSuffix(path, ".json") + "_test.go.txt"
+				os.WriteFile(tp, []byte(testSrc), 0o644)
+				rec["replay_test"] = tp
+			}
+		}
+	}
 	if r.Res.Status == "sat" {
 		model := ParseModel(r.Res.Output)
 		rec["model"] = o.Gen.modelSummary(model)
